@@ -175,7 +175,7 @@ func genC02(r *Rand, tier string, ord int) *Trial {
 		o.Wrap = r.PickInt(1, 3, 7, 60)
 	}
 	t := &Trial{Kind: kind, Case: Case{Cmd: "topa", Files: map[string]string{"sam": sc.Text(), "ref": ">ref\n" + sc.RefSeq + "\n"}, Opts: o}, Params: map[string]string{}}
-	t.Runs = genRunCfgs(r, 3)
+	t.Runs = genRunCfgs(r, 5) // 0..2: model comparison; 3,4: the toMultiAlign --pad relation (with --skip-insertions)
 	return t
 }
 
@@ -292,7 +292,11 @@ func checkC02(t *Trial, ctx *Ctx) *Failure {
 		}
 		want = w2
 	}
-	for i := range t.Runs {
+	nModel := len(t.Runs)
+	if nModel > 3 {
+		nModel = 3
+	}
+	for i := 0; i < nModel; i++ {
 		res := ctx.Run(t, i, &t.Case)
 		fail := func(what, detail string) *Failure {
 			t.Runs = t.Runs[i : i+1]
@@ -325,6 +329,36 @@ func checkC02(t *Trial, ctx *Ctx) *Failure {
 		for _, n := range names {
 			if got[n] != want[n] {
 				return fail("pair-content", fmt.Sprintf("query %s\n--- model:\n%s--- got:\n%s", n, want[n], got[n]))
+			}
+		}
+	}
+	// the relation stated in the property, between two simulated runs of the real code: with
+	// --skip-insertions the query rows are exactly the `sam toMultiAlign --pad` rows of the same SAM
+	if o.OmitIns && len(t.Runs) >= 5 {
+		tc := Case{Cmd: "toma", Files: map[string]string{"sam": t.Case.Files["sam"]}, Opts: Opts{Wrap: -1, Start: o.Start, End: o.End, Pad: true, Threads: 1}}
+		pa := t.Case
+		pa.Opts.OmitRef, pa.Opts.OutDir, pa.Opts.Wrap = true, "stdout", -1
+		rt := ctx.Run(t, 3, &tc)
+		rp := ctx.Run(t, 4, &pa)
+		if rt.Out.Kind == simrt.Returned && rt.Err == nil && rp.Out.Kind == simrt.Returned && rp.Err == nil {
+			// toMultiAlign --pad keeps the window's outside as N; toPairAlign cuts it away
+			want := string(rt.Stdout)
+			if o.Start > 0 || o.End > 0 {
+				s, e := o.Start, o.End
+				if s <= 0 {
+					s = 1
+				}
+				if e <= 0 {
+					e = len(sc.RefSeq)
+				}
+				var sb strings.Builder
+				for _, rec := range parseOutFasta(want) {
+					sb.WriteString(">" + rec.name + "\n" + rec.seq[s-1:e] + "\n")
+				}
+				want = sb.String()
+			}
+			if string(rp.Stdout) != want {
+				return &Failure{Class: "C02/skip-insertions-differs-from-toMultiAlign-pad{" + region + "}", Detail: fmt.Sprintf("--- SAM:\n%s--- toMultiAlign --pad:\n%s--- toPairAlign --skip-insertions --omit-reference:\n%s", t.Case.Files["sam"], want, rp.Stdout)}
 			}
 		}
 	}
